@@ -42,13 +42,13 @@ def r1_seed_loop(a, tier):
         floor=1,
     )
     fn = a.p.func(f'{ENGINE}.recursive_call')
-    init_vars = {n.targets[0].id for n in walk_no_defs(fn.node) if isinstance(n, ast.Assign) and norm(n.value) == 'self.pos'
+    init_vars = {n.targets[0].id for _f, n in a.extents.walk(fn) if isinstance(n, ast.Assign) and norm(n.value) == 'self.pos'
                  and isinstance(n.targets[0], ast.Name)}
 
     class Sem(Semantics):
         def call(self, ex, f, node, state):
             nm = dotted(node.func)
-            if f is fn and nm == 'self.clear_recursion_errors':
+            if ex.in_extent(f) and nm == 'self.clear_recursion_errors':
                 if 'entered' in state and not {'grew', 'ranked'} <= state:
                     state = frozenset(state | {'bad_backedge'})
                 keep = {x for x in state if x in ('seeded', 'bad_backedge', 'eval_before_seed', 'eval_without_clear', 'cmp_without_reset',
@@ -56,19 +56,19 @@ def r1_seed_loop(a, tier):
                 if {'grew', 'ranked'} <= state:
                     keep.add('variant_seen')
                 state = frozenset(keep | {'entered', 'cleared'})
-            if f is fn and nm == 'self.rule_call' and any(isinstance(p, ast.While) for p in _ancestors(ex, fn, node)):
+            if ex.in_extent(f) and nm == 'self.rule_call' and any(isinstance(p, ast.While) for p in _ancestors(ex, f, node)):
                 extra = set()
                 if 'seeded' not in state:
                     extra.add('eval_before_seed')
                 if 'cleared' not in state:
                     extra.add('eval_without_clear')
                 state = frozenset((state - {'cleared'}) | extra | {'evaluated'})
-            if f is fn and nm == 'self.goto' and node.args and isinstance(node.args[0], ast.Name) and node.args[0].id in init_vars:
+            if ex.in_extent(f) and nm == 'self.goto' and node.args and isinstance(node.args[0], ast.Name) and node.args[0].id in init_vars:
                 state = frozenset(state | {'reset'})
             return ex.default_call(f, node, state)
 
         def stmt(self, ex, f, node, state):
-            if f is fn and isinstance(node, ast.Assign):
+            if ex.in_extent(f) and isinstance(node, ast.Assign):
                 t = node.targets[0]
                 if isinstance(t, ast.Subscript) and norm(t.value) == 'self._results':
                     return frozenset(state | {'seeded'})
@@ -77,7 +77,7 @@ def r1_seed_loop(a, tier):
             return state
 
         def test(self, ex, f, test, state):
-            if f is fn and isinstance(test, ast.Compare) and len(test.ops) == 1 and isinstance(test.left, ast.Attribute) \
+            if ex.in_extent(f) and isinstance(test, ast.Compare) and len(test.ops) == 1 and isinstance(test.left, ast.Attribute) \
                     and test.left.attr == 'newpos' and isinstance(test.comparators[0], ast.Name):
                 if 'reset' not in state:
                     state = frozenset(state | {'cmp_without_reset'})
@@ -271,4 +271,10 @@ def r3b(a, tier):
     return rule_left_call_table(a, 'C03.R3b', thorough=tier == 'thorough')
 
 
-RULES = [r_chain, r1_seed_loop, r2_flag_transfer, r3a, r3b]
+def r3c(a, tier):
+    # every cycle must contain a marked rule, or its rules get neither seed growing nor the runtime guard (shared with C16.R4)
+    from ..rules.leftrec import rule_all_small_graphs
+    return rule_all_small_graphs(a, 'C03.R3c', tier)
+
+
+RULES = [r_chain, r1_seed_loop, r2_flag_transfer, r3a, r3b, r3c]
